@@ -81,17 +81,57 @@ Proof. exact rec_step_emits. Qed.
 
 (* SOUNDNESS OF THE DECISION PROCEDURE spec_c09 FOR THE MODEL - partial: clauses 1 (refresh exactness: the spec's closed
    form expected_active / re-assignment iff partitions or a to changed, decided after every Refresh, Revoke and
-   single-record completion), 4 (nothing recovered between a revocation / stop and the next assignment) and 5 (owned set
-   follows assignment and revocation) never fail on the model's own observations, for every configuration and op list.
+   single-record completion), 4 (nothing recovered between a revocation / stop and the next assignment), 5 (owned set
+   follows assignment and revocation) and 6 (the successor of a stopped instance holds exactly what the broadcasts say,
+   below) never fail on the model's own observations, for every configuration and op list.
    Not proved sound (only exercised): clauses 2/3 (hand-off and progress coverage through cover_fails under the watched
    guard - the model-level statement is C09_handoff_partial). *)
 Theorem C09_spec_sound_partial : forall cfg ops,
   let l := model_l cfg init_state ops in
-  scan c09_refresh ops obs0 l = [] /\ c09_revoked ops l false = [] /\ scan c09_owned ops obs0 l = [].
-Proof. exact spec_c09_clauses_145_sound. Qed.
+  scan c09_refresh ops obs0 l = [] /\ c09_revoked ops l false = [] /\ scan c09_owned ops obs0 l = []
+  /\ c09_successor ops l [] = [].
+Proof. exact spec_c09_clauses_1456_sound. Qed.
+
+(* SUCCESSOR STATE (clause 6).  The instance that takes over after a stop (Crash: a new instance that read the compacted
+   topic, or a live peer that received every broadcast in order; RecCrash: the owner died while handling a record) holds,
+   for every partition, exactly the last snapshot broadcast or delivered for it so far.  The decision procedure rebuilds
+   the message log from the OBSERVATIONS (broadcasts each op sent, snapshots delivered from other senders) and compares
+   partition by partition, so the stable sort by partition of the observed broadcasts / tracker does not matter. *)
+Theorem C09_successor_sound : forall cfg ops, c09_successor ops (model_l cfg init_state ops) [] = [].
+Proof. exact c09_successor_sound. Qed.
+
+(* the model-level fact behind it: every op appends to the message log exactly the snapshot it delivers and what it
+   sends; a stop leaves a tracker that is the replay of that log; a replay holds for p the last log entry for p *)
+Theorem C09_successor_is_replay : forall cfg s op,
+  mlog (fst (rstep cfg s op)) = mlog s ++ delivered op ++ o_sent (snd (rstep cfg s op))
+  /\ (match op with Crash | RecCrash _ => True | _ => False end ->
+      trk (fst (rstep cfg s op)) = replay (mlog (fst (rstep cfg s op))))
+  /\ (forall p log, lookup p (replay log) = last_for p log).
+Proof.
+  intros cfg s op. split; [apply rstep_mlog|]. split; [apply stop_trk_replay|]. intros p log. apply lookup_replay.
+Qed.
+
+(* a successor that still holds a request the broadcasts say is completed is flagged *)
+Example C09_successor_witness :
+  c09_successor succ_ops (model_l succ_cfg init_state succ_ops) [] = []
+  /\ b_trk (last (model_l succ_cfg init_state succ_ops) obs0) = [(0, [])]
+  /\ c09_successor succ_ops (doctor_last_trk [(0, [(0, 3)])] (model_l succ_cfg init_state succ_ops)) [] = [(6, [1])]
+  /\ spec_c09 succ_cfg succ_ops (model_l succ_cfg init_state succ_ops) = [(2, [1])]
+  /\ spec_c09 succ_cfg succ_ops (doctor_last_trk [(0, [(0, 3)])] (model_l succ_cfg init_state succ_ops)) = [(6, [1])].
+Proof. exact c09_successor_example. Qed.
+
+(* the whole of spec_c09 on the model's own observations reports nothing but coverage clauses (2 / 3, where the known
+   findings F6 / F11 show) *)
+Theorem C09_spec_model_only_coverage : forall cfg ops x,
+  In x (spec_c09 cfg ops (model_l cfg init_state ops)) -> fst x = 2 \/ fst x = 3.
+Proof. exact spec_c09_model_only_coverage. Qed.
 
 Print Assumptions C09_refresh_exact.
 Print Assumptions C09_spec_sound_partial.
+Print Assumptions C09_successor_sound.
+Print Assumptions C09_successor_is_replay.
+Print Assumptions C09_successor_witness.
+Print Assumptions C09_spec_model_only_coverage.
 Print Assumptions C09_unchanged_means_same.
 Print Assumptions C09_revoke_clears.
 Print Assumptions C09_revoke_stops.
